@@ -397,6 +397,8 @@ def run(pid: str, prog: Program, rep, seed: int = 0) -> None:
         name, suffix, edit, expect, rule = jobs[i]
         if state == "skipped":
             tally["skipped"] += 1
+            if i < len(mutants):
+                print(f"SELFTEST-NOTE property={pid} variant '{name}' skipped: construct not present on this tree")
             details.append({"variant": name, "result": "skipped (construct not present on this tree)"})
             continue
         if expect == "fire":
